@@ -37,7 +37,7 @@ claimed = {
    '20 programs of 1-3 threads with 1-3 real lifecycle calls each (AddClient, DelClient, SetLocked, reload, GetDescription, stats.GetGroups, group.Update, group.Delete, WhipClient.Close/Permissions, disk-writer Kick, Shutdown, data/history/status readers) plus two action-queue programs (two producers and the clientLoop consumer pattern), every schedule with <=3 (thorough 5) preemptions; deadlocks, unsynchronised accesses to the monitored Group/registry/configuration/queue fields, membership consistency, exactly-once and per-producer order of queued items.',
    'Scheduling points at mutex, atomic, file and unbounded channel operations of the instrumented packages; happens-before through raw channels only for spawn/join.', 'DESIGN.md §3 C13'),
  'C20': ('A', 'exhaustive enumeration of delivery histories (bounded permutations, duplications, gaps with/without cache recovery, sender-report positions, sizes, pre-rolls) through the real disk writer; files parsed back with ebml-go',
-   'For 206 stream configurations (VP8/VP9/H264/opus, 3-6 frames of 1-3 packets, payload sizes, timestamp and seqno wrap) every permutation with displacement <=2/3, every single duplication, every choice of one or two undelivered packets present or absent in the real packet cache, a sender report at every position, Close vs publisher departure, pre-rolls that put the sample builder ring just before its wrap, and a pre-roll whose first keyframe is lost for good (the file has to start at a later keyframe); each history is one execution of the real diskwriter through its public API; the recorded blocks are compared with independently depacketised frames (byte identity, no repeats, order, timestamps, completeness after the first keyframe, container well-formedness, shared origin — within arrival jitter, and within 2 ms once sender reports for both tracks precede the creation of the file —, flush on stop).',
+   'For 205 stream configurations (VP8/VP9/H264/opus, 3-6 frames of 1-3 packets, payload sizes, timestamp and seqno wrap) every permutation with displacement <=2/3, every single duplication, every choice of one or two undelivered packets present or absent in the real packet cache, a sender report at every position, Close vs publisher departure, pre-rolls that put the sample builder ring just before its wrap, and a pre-roll whose first keyframe is lost for good (the file has to start at a later keyframe); each history is one execution of the real diskwriter through its public API; the recorded blocks are compared with independently depacketised frames (byte identity, no repeats, order, timestamps, completeness after the first keyframe, container well-formedness, shared origin — within arrival jitter, and within 2 ms once sender reports for both tracks precede the creation of the file —, flush on stop).',
    'Recoverable = in the cache when the gap is first noticed; exemptions before the first keyframe as stated in evidence; multi-NAL H264 access units not in the alphabet.', 'DESIGN.md §3 C20'),
  'C08': ('A+D', 'full product enumeration of descriptions x credentials through readDescription/GetPermission/AddClient/handleClientMessage vs an independent reference; BFS over moderation histories; tool round trip',
    'Full Cartesian products of group descriptions (password encodings, roles, wildcard user, flags) x credentials through the real readDescription + GetPermission, group.AddClient with harness clients, and the real websocket join handler; BFS over moderation-action histories followed by fresh logins (role table aliasing); enumeration of galenectl makePassword parameters round-tripped through Password.Match.',
